@@ -154,6 +154,8 @@ def ob_pool(skeleton, transform, line_index):
     d["notes"] = dict(stats, branched_on=d["branches"])
     if not stats["changed"]:
         d["trivial"] = True
+    if stats["crash"]:
+        d["allow_vacuous"] = True  # a crash of the rule is C04's business
     return d
 
 
